@@ -156,6 +156,30 @@ func init() {
 					add(c)
 				}
 			}
+			// an operator its container does not support (`<`, `>`, between on a default or a pattern field): the holder
+			// panics, whatever the policy -- AddDocument must not swallow it and keep half of the conjunction; all-negative
+			// conjunctions (a swallowed failure would leave their match-everything entry), alone and between good documents
+			for _, pol := range []string{"skip", "error", "panic"} {
+				for _, kind := range []string{"kgroups", "compact"} {
+					for _, f := range []int{0, 1} {
+						for _, op := range []int{2, 1, 3} {
+							v := tvInt("int", 18)
+							if op == 3 {
+								v = tvSlice("[]int64", tvInt("int64", 1), tvInt("int64", 5))
+							}
+							c := eCase{Kind: kind, Policy: pol, Configs: conts}
+							c.Docs = []eDoc{
+								{ID: 1, Cons: []eConj{{mkGood(0, true)}}},
+								{ID: 2, Cons: []eConj{{{F: f, Inc: false, Op: op, V: v}}}},
+								{ID: 3, Cons: []eConj{{{F: f, Inc: false, Op: op, V: v}, {F: 3, Inc: false, V: tvStr("x")}}, {mkGood(0, true)}}},
+								{ID: 4, Cons: []eConj{{mkGood(2, true)}}},
+							}
+							c.Queries = []eQuery{{}, {A: []eAssign{{F: 3, V: tvStr("y")}}}, {A: []eAssign{{F: 0, V: tvInt("int", 1)}}}, {A: []eAssign{{F: 2, V: tvInt("int", 30)}}}}
+							add(c)
+						}
+					}
+				}
+			}
 			// a default-holder field with the number-range parser: descriptions that only start like a range ("a:b" followed
 			// by more text, a dangling separator, a padded number) are unparseable, whatever the policy
 			for _, pol := range []string{"skip", "error", "panic"} {
@@ -207,6 +231,7 @@ func init() {
 					}
 					c.Queries = append(c.Queries, eQuery{A: []eAssign{{F: 3, V: tvStr("y")}}}, eQuery{})
 					add(cacheIn{Cache: true, Case: c, Thr: 2, Seed: 61, MissPct: 0, DropPct: 0})
+					add(cacheIn{Cache: true, Case: c, Thr: 2, Seed: 161, MissPct: 0, DropPct: 0, Trunc: 60}) // some writes cut short: entries found with their payload lost
 					// two generations of one builder (Reset in between): conjunctions the first generation cached come
 					// back at the same position and size with an expression that no longer parses
 					g1 := eCase{Kind: kind, Policy: pol}
